@@ -133,8 +133,7 @@ def hSetData (env : NsEnv) (v : Val) (s : HState) : R :=
     match val with
     | some x =>
       if x.isEmpty then (c1, .ok { s1 with inTail := true })
-      else if !s1.inTail then (c1 ++ [Call.chars x], .ok { s1 with inTail := true })
-      else (c1, .ok { s1 with tail := some x, inTail := true })
+      else (c1 ++ [Call.chars x], .ok { s1 with inTail := true })
     | none => (c1, .ok { s1 with inTail := true })
 
 /-- `EventHandler.end_tag(qname)` -/
